@@ -22,6 +22,7 @@ mod scenario;
 mod selfcheck;
 mod simdb;
 mod simsched;
+mod statecomp;
 mod templates;
 mod workload;
 
